@@ -3149,7 +3149,9 @@ class QuicConnection:
                 except QuicPacketBuilderStop:
                     break
 
-            sent: Set[QuicStream] = set()
+            # `sent` is a list so that the new service order does not depend on
+            # the memory addresses of the stream objects.
+            sent: list[QuicStream] = []
             discarded: Set[QuicStream] = set()
             try:
                 for stream in self._streams_queue:
@@ -3183,7 +3185,7 @@ class QuicConnection:
                         )
                         self._remote_max_data_used += used
                         if used > 0:
-                            sent.add(stream)
+                            sent.append(stream)
 
             finally:
                 # Make a new stream service order, putting served ones at the end.
